@@ -74,17 +74,15 @@ PROPS = {
         kani=[], native=[N('verif_cursor::c05_prefixes', '~150 prefixes per file x 14 files')], witness=[],
         unproved=[READER_UNPROVED], explanation='bounded stand-in only for now'),
     'C06': dict(
-        verus_required=False,
         level='other',
-        level_text='Bounded stand-in: all overlap patterns of 3 sources x 4 keys (every 5th in quick, all 4096 in thorough) plus random merges of up to 6 sources / 150 keys with an order-recording non-commutative merge function that logs every call; both the streaming iterator and write_into_stream_writer (decoded independently).',
+        level_text='Proved (Verus): Entry::cmp (and eq/partial_cmp) is exactly the reverse of the lexicographic order on (current key, position at which the source was added), the order the statement prescribes for a max-heap, hence equal keys pop in source order; MergerBuilder operations are panic-free. MergerIter::next (BinaryHeap + iterator chains) is not under contract: bounded stand-in: all overlap patterns of 3 sources x 4 keys (every 5th in quick, all 4096 in thorough) plus random merges of up to 6 sources / 150 keys with an order-recording non-commutative merge function that logs every call; both the streaming iterator and write_into_stream_writer (decoded independently).',
         level_note='MergerIter/BinaryHeap not under contract yet; bounded',
-        technique='bounded differential stand-in on the real Merger (contract on Entry::cmp pending)',
+        technique='Verus contract on the heap order (Entry::cmp) + bounded differential stand-in on the real Merger',
         kani=[], native=[N('verif_merge::c06_merge', '837 (4173 thorough) source patterns x 2 routes')], witness=[],
         unproved=['Merger/MergerIter not under contract'], explanation='bounded stand-in only for now'),
     'C07': dict(
-        verus_required=False,
         level='other',
-        level_text='Bounded stand-in: insert sequences of 0..95k (140k thorough) entries (12-37 MiB, so the real 10 MiB minimum budget spills 1-3 times and chunk merges trigger), duplicates, empty pairs (also as the last pending entry), one entry larger than the buffer; 4 configurations (realloc on/off, max chunks 1/2/3/25, stable/unstable, sequential/rayon, 4 codecs, index levels 0..3) x 3 output routes, compared with sort-and-merge of the inserts in insertion order (multiset per key under the unstable sort).',
+        level_text='Proved (Verus): only the tie-breaking heap order used when chunks are merged (Entry::cmp: equal keys resolved oldest chunk first). Everything else is a bounded stand-in: insert sequences of 0..95k (140k thorough) entries (12-37 MiB, so the real 10 MiB minimum budget spills 1-3 times and chunk merges trigger), duplicates, empty pairs (also as the last pending entry), one entry larger than the buffer; 4 configurations (realloc on/off, max chunks 1/2/3/25, stable/unstable, sequential/rayon, 4 codecs, index levels 0..3) x 3 output routes, compared with sort-and-merge of the inserts in insertion order (multiset per key under the unstable sort).',
         level_note='Sorter not under contract yet; rayon scheduling is not controllable (whatever schedule the run takes); bounded',
         technique='bounded differential stand-in on the real Sorter',
         kani=[], native=[N('verif_merge::c07_sorter_equals_sort_and_merge', '34 runs, 10 with spills (more in thorough)')], witness=[],
@@ -110,14 +108,14 @@ PROPS = {
         level_text='Metadata::read_from is proved (Verus, all byte strings) to decode a V1 trailer (21 bytes, literal magic 0x76324D4C) into FormatV1 with the stored root offset, codec and count and index_levels 0; no reader contract mentions the version. "Identical results" is bounded: V1 twins of V2 files (all codecs, block sizes, intervals, 0..600 entries incl. empty) compared on open metadata, scans, seeks, ranges and prefixes.',
         level_note=READER_UNPROVED,
         technique='Verus contract on Metadata::read_from + bounded V1/V2 twin stand-in',
-        kani=[], native=[N('verif_rw::c10_v1_files', '14 (40 thorough) twin pairs, ~1600 queries')], witness=[],
+        kani=[dict(name='c10_metadata_roundtrip_all_fields', kind='complete')], native=[N('verif_rw::c10_v1_files', '14 (40 thorough) twin pairs, ~1600 queries')], witness=[],
         unproved=[READER_UNPROVED], explanation='trailer decode proved; identical query results bounded'),
     'C11': dict(
         level='other',
         level_text='Write side: CountWrite::write/flush are proved (Verus) against the trait-level contract of an arbitrary inner writer that accepts any prefix or fails (count == bytes accepted); every emission in compress_and_write_block / Metadata::write_into goes through write_all / byteorder writes whose assumed contract is schedule independent, so the emitted bytes are a function of the entries. Read side and whole-pipeline determinism are bounded: sinks accepting 1..n bytes per call with/without Interrupted, sources serving 1..n bytes per read with/without Interrupted, for all codecs, plus a Sorter over splitting chunk storage.',
         level_note=ASSUME_IO + '; read path not under contract; bounded schedules are pseudo-random (VERIF_SEED)',
         technique='Verus trait-level contract for CountWrite + assumed std write_all/read_exact contracts + bounded schedule stand-in',
-        kani=[], native=[N('verif_io::c11_io_splitting', '6 files x (6 sink schedules + 7 source schedules) + 2 sorter runs')], witness=[],
+        kani=[dict(name='c11_count_write_counts_accepted_bytes', kind='bounded', bound='3 write calls of <= 16 bytes each over an inner writer with an arbitrary accept/fail schedule (each call is loop-free: complete per call)')], native=[N('verif_io::c11_io_splitting', '6 files x (6 sink schedules + 7 source schedules) + 2 sorter runs')], witness=[],
         unproved=['read side (Block::read_from, decompress over Take) not under contract'], assumptions=[ASSUME_IO],
         explanation='write side proved modulo std contracts; read side bounded'),
     'C12': dict(
@@ -125,7 +123,7 @@ PROPS = {
         level_text='Proved (Verus): panic-freedom of every function under contract (no overflow, no failing unwrap/index under the stated physical bounds), Error::convert_merge_error total on non-merge errors, io errors converted by From, CountWrite::into_inner flushes before handing the sink back, Writer::into_inner returns Ok only after trailer and flush. Bounded: exhaustive k-th-call fault injection on sinks (two error kinds), sources, chunk creator (io and InvalidFormatVersion), chunk storage and merge function through Writer, Reader, Merger and Sorter under catch_unwind.',
         level_note=ASSUME_IO + '; reader/merger/sorter error paths not under contract',
         technique='Verus safety obligations + error-kind postconditions on the write path; bounded exhaustive fault injection stand-in',
-        kani=[], native=[N('verif_io::c12_faults_surface_as_err', '~3500 sink fault points, ~2200 source fault points, ~550 merge/create/chunk fault points')], witness=[],
+        kani=[dict(name='c12_convert_merge_error_total', kind='complete')], native=[N('verif_io::c12_faults_surface_as_err', '~3500 sink fault points, ~2200 source fault points, ~550 merge/create/chunk fault points')], witness=[],
         unproved=['reader/merger/sorter error propagation not under contract'], assumptions=[ASSUME_IO],
         explanation='write path proved; other paths bounded'),
     'C13': dict(
@@ -133,7 +131,7 @@ PROPS = {
         level_text='Proved (Verus, all byte strings, any Read+Seek source): Metadata::read_from returns Ok only if the string ends with a complete V1/V2 trailer with a known codec id, and then returns exactly the decoded fields; never panics. The converse (every valid trailer is accepted) and Reader::new on Cursor<&[u8]> are bounded: every truncation of scenario files near the tail, every single-byte corruption of the trailer, all codec bytes 0..8 for both versions, and thousands of random short strings, compared with an independent trailer parser.',
         level_note=ASSUME_IO + '; exactness direction bounded',
         technique='Verus contract on Metadata::read_from (soundness direction) + bounded exactness stand-in',
-        kani=[], native=[N('verif_rw::c13_open_exactness', '~3900 byte strings (quick)')], witness=[],
+        kani=[dict(name='c13_read_from_exact_on_cursor', kind='bounded', bound='all byte contents, length 0..=26 on the real std::io::Cursor (read_from inspects only the last 22 bytes and the length)')], native=[N('verif_rw::c13_open_exactness', '~3900 byte strings (quick)')], witness=[],
         unproved=['valid trailer => Ok (completeness direction) not a discharged obligation'], assumptions=[ASSUME_IO],
         explanation='soundness proved, completeness bounded'),
 
@@ -154,10 +152,10 @@ PROPS = {
         unproved=[READER_UNPROVED], explanation='open proved, per-operation bound bounded'),
     'C17': dict(
         level='other',
-        level_text='Proved (Verus): absence of arithmetic overflow and out-of-bounds indexing in every function under contract (write path, varint, metadata) under the stated physical bounds. The unsafe two-ended buffer of the sorter is not under contract yet.',
-        level_note=ASSUME_PHYS + '; Entries/EntryBoundAlignedBuffer (unsafe) pending Kani harnesses',
-        technique='Verus safety obligations (overflow, bounds) on extracted real code; Kani on the unsafe buffer pending',
-        kani=[], native=[], witness=[],
+        level_text='Proved (Verus): absence of arithmetic overflow and out-of-bounds indexing in every function under contract (write path, varint, metadata) under the stated physical bounds. The unsafe two-ended buffer of the sorter (alloc/dealloc layout, fits/remaining arithmetic, insert with reallocation, iter) is checked by Kani harnesses on the real unsafe code with all CBMC pointer/bounds/overflow checks, bounded in sizes.',
+        level_note=ASSUME_PHYS + '; Entries/EntryBoundAlignedBuffer (unsafe): Kani, bounded sizes; lifetime-extending transmutes are not decided by any installed verifier (typing argument)',
+        technique='Verus safety obligations (overflow, bounds) on extracted real code + bounded Kani harnesses on the unsafe buffer',
+        kani=[dict(name='c17_buffer_layout_alloc_dealloc', kind='bounded', bound='requested sizes 1..=4097'), dict(name='c17_fits_exact_no_overflow', kind='bounded', bound='capacity <= 256, any consistent (entries_len, bounds_count), key/value <= 8 bytes'), dict(name='c17_entries_insert_realloc_iter', kind='bounded', bound='capacity 16 or 32, two inserts with key <= 4 and value <= 10 bytes (fit, one and two doublings), read back through iter()', tier='thorough', timeout=3000)], native=[], witness=[],
         unproved=['Entries / EntryBoundAlignedBuffer unsafe code', 'reader-side slicing (Block::entry_at)'], assumptions=[ASSUME_PHYS],
         explanation='safe write path proved; unsafe sorter buffer pending'),
     'C18': dict(
